@@ -151,6 +151,47 @@ func c14History(c *core.Ctx, env *idxEnv, r *rand.Rand, h int) {
 	})
 	n := 0
 	var hist []idxMut
+	if h%3 == 0 {
+		// Init on a store that already holds one of the seed ids (created before the first
+		// Init): the existing value is kept, so only the seeds really created are announced
+		own := mkValue2(env.typed, "own0", "ab", "a")
+		wt := env.st.Write("seedX")
+		multi = true
+		env.setModel("seedX", own)
+		if err := wt.Create(own); err != nil {
+			env.setModel("seedX", nil)
+		}
+		wt.Close()
+		env.qs.Flush()
+		mu.Lock()
+		nBefore := len(recs)
+		mu.Unlock()
+		multi = true
+		sy := mkValue2(env.typed, "seedY.u", "b", "")
+		err := env.st.Init(func(add func(id string, v interface{})) error {
+			add("seedX", mkValue2(env.typed, "seedX.u", "zz", "z"))
+			add("seedY", sy)
+			return nil
+		})
+		env.qs.Flush()
+		multi = false
+		if err == nil {
+			env.setModel("seedY", sy)
+		}
+		c.Eval(1)
+		mu.Lock()
+		var got []string
+		for _, g := range recs[nBefore:] {
+			got = append(got, fmt.Sprintf("%s:%s>%s", g.ID, g.Before, g.After))
+		}
+		mu.Unlock()
+		if want := "seedY:>seedY.u"; err != nil || strings.Join(got, " ") != want {
+			c.Violation("C14/callback-sequence:init", fmt.Sprintf("Init with seeds seedX (already stored) and seedY (err=%v) ran query-change callbacks %v, want [%s]", err, got, want),
+				map[string]interface{}{"got": got, "typed": env.typed, "prefix": env.prefix})
+		}
+		c.Distinct(fmt.Sprintf("%s/h%d/init", c.Batch.Name, h))
+		env.checkQueries(c, "C14", nil, []idxQuery{{Index: "k", Prefix: "", Limit: -1}, {Index: "k", Prefix: "zz", Limit: -1}, {Index: "x2", Prefix: "", Limit: -1}}, "after-init")
+	}
 	for step := 0; step < 40+r.Intn(60); step++ {
 		n++
 		// snapshot of the model before the mutation
@@ -301,7 +342,7 @@ func c14KeyChanged(before, after interface{}) bool {
 
 // modelAfterLocked returns the current model (the harness mutates the model
 // before the index task runs, and flushes after each mutation).
-func (e *idxEnv) modelAfterLocked() map[string]interface{} { return e.model }
+func (e *idxEnv) modelAfterLocked() map[string]interface{} { return e.modelSnapshot() }
 
 func contains(l []string, s string) bool {
 	for _, x := range l {
